@@ -254,3 +254,23 @@ fn test_huge_finite_values_keep_queries_in_range() {
         assert!((0.0..=1.0).contains(&r), "rank {r}");
     }
 }
+
+#[test]
+fn test_one_sample_image_with_distinct_extremes_round_trips() {
+    // general form, k = 100, one centroid (0.0, weight 1), min = -1.0, max = 0.0
+    let mut image = vec![2u8, 1, 20, 100, 0, 0, 0, 0, 1, 0, 0, 0, 0, 0, 0, 0];
+    image.extend_from_slice(&(-1.0f64).to_le_bytes());
+    image.extend_from_slice(&0.0f64.to_le_bytes());
+    image.extend_from_slice(&0.0f64.to_le_bytes());
+    image.extend_from_slice(&1u64.to_le_bytes());
+    let mut td = TDigestMut::deserialize(&image, false).unwrap();
+    let mut again = TDigestMut::deserialize(&td.serialize(), false).unwrap();
+    assert_eq!(again.min_value(), Some(-1.0));
+    assert_eq!(again.max_value(), Some(0.0));
+    assert_eq!(again.serialize(), image);
+
+    // a single update still uses the single-value form
+    let mut one = TDigestMut::new(100);
+    one.update(3.0);
+    assert_eq!(one.serialize().len(), 16);
+}
